@@ -130,6 +130,12 @@ class FortLineLength():
         '''
         fortran_out = ""
         for line in fortran_in.split('\n'):
+            if (len(line) > self._line_length and
+                    not self._comment.match(line)):
+                # Trailing white space after a statement is not significant
+                # but could make the final part of the line appear too
+                # long to fit.
+                line = line.rstrip()
             if len(line) > self._line_length:
                 line_type = self._get_line_type(line)
 
